@@ -98,8 +98,10 @@ def b64_byte_to_urlsafe_char (x : UInt32) : UInt32 :=
   (LTm x 26 &&& (x + 65)) ||| (GEm x 26 &&& LTm x 52 &&& (x + (97 - 26))) |||
   (GEm x 52 &&& LTm x 62 &&& (x + (48 - 52))) ||| (EQm x 62 &&& 45) ||| (EQm x 63 &&& 95)
 
-/-- `char` → `int` → `unsigned int` conversion of a text byte (plain `char` is signed on x86-64) -/
-def charToU32 (c : UInt8) : UInt32 := if c < 128 then c.toUInt32 else c.toUInt32 ||| 0xFFFFFF00
+/-- the text byte is converted through `(unsigned char)` before it reaches the character map
+    (second C15 fix: before it, a signed `char` ≥ 0x80 was sign-extended, and the EQ() macro, valid
+    only for operands in 0..255, made every such byte decode as the sextet 63) -/
+def charToU32 (c : UInt8) : UInt32 := c.toUInt32
 
 def b64_char_to_byte (c : UInt32) : UInt32 :=
   let x := (GEm c 65 &&& LEm c 90 &&& (c - 65)) ||| (GEm c 97 &&& LEm c 122 &&& (c - (97 - 26))) |||
